@@ -9,12 +9,12 @@ from pbmon.oracle import haploblocks as O
 
 PROPERTY = "C18"
 NSHARDS = {"quick": 4, "thorough": 16}
-CLAUSES = {
-    "C18.partition.apportion": 2000, "C18.partition.labels": 2000, "C18.partition.chrom": 1000,
-    "C18.partition.count": 1000, "C18.partition.bounds": 2000,
-    "C18.blockvalue": 1000, "C18.conservation": 500,
-    "C18.ohv": 300, "C18.ohv.latentfn": 300, "C18.opv": 200, "C18.gb": 200,
-    "C18.bound": 200, "C18.finite": 1500,
+CLAUSES = {   # minimum evaluations per run (about a fifth of what a quick run makes on the unchanged tree)
+    "C18.partition.apportion": 50000, "C18.partition.labels": 30000, "C18.partition.chrom": 15000,
+    "C18.partition.count": 15000, "C18.partition.bounds": 50000,
+    "C18.blockvalue": 10000, "C18.conservation": 5000,
+    "C18.ohv": 3000, "C18.ohv.latentfn": 2000, "C18.opv": 1000, "C18.gb": 1000,
+    "C18.bound": 3000, "C18.finite": 10000,
 }
 HOOKS_REQUIRED = ["haplobin<-haplomat", "haplobin<-OptimalHaploidValueSelectionProblemMixin._calc_haplomat",
                   "haplobin<-OptimalPopulationValueSelectionProblemMixin._calc_haplomat",
@@ -516,7 +516,7 @@ def case_problems(ctx, c):
                           icls + ("/nbestfndr=1 (OPV)" if nbest == 1 else "/nbestfndr>1"), witness=dict(wx, got=lv, expected=exp), coords=coords)
 
 
-FAMILIES = {"helpers": (case_helpers, 20000, 600000), "problems": (case_problems, 10000, 240000)}
+FAMILIES = {"helpers": (case_helpers, 20000, 400000), "problems": (case_problems, 10000, 160000)}
 
 
 def run_shard(ctx):
